@@ -134,3 +134,29 @@ Proof.
   split; [exact Ex|]. simpl. split; [reflexivity|]. split; [reflexivity|].
   intros c Hc. apply get_along. exact Hc.
 Qed.
+
+(* ------------------------------------------------------------------ interp_like *)
+(* the dimensions of self that the other object also has, with the other's labels, in self's order *)
+Definition shared_axes (others : list (string * kind * list label)) (names : list string) : list (string * kind * list label) :=
+  flat_map (fun nm => match find (fun p => String.eqb (fst (fst p)) nm) others with
+                      | Some (_, k, news) => [(nm, k, news)] | None => [] end) names.
+Definition interp_step (left right : cell) (acc : res darr) (p : string * kind * list label) : res darr :=
+  let! o := acc in interp_axis (snd (fst p)) (snd p) (ByName (fst (fst p))) left right o.
+
+Lemma fold_err {A} (f : res darr -> A -> res darr) (Hf : forall e x, f (Err e) x = Err e) l e : fold_left f l (Err e) = Err e.
+Proof. induction l as [|x t IH]; simpl; [reflexivity|]. rewrite Hf. exact IH. Qed.
+
+Theorem interp_like_successive others left right a :
+  interp_like others left right a = fold_left (interp_step left right) (shared_axes others (map aname (axes a))) (Ok a).
+Proof.
+  unfold interp_like. generalize (Ok a) as acc. induction (map aname (axes a)) as [|nm t IH]; intros acc; [reflexivity|].
+  cbn [fold_left shared_axes flat_map]. fold (shared_axes others t). rewrite fold_left_app. rewrite IH. f_equal.
+  unfold like_step. destruct acc as [o|e]; cbn [bind].
+  - destruct (find _ others) as [[[n k] news]|]; reflexivity.
+  - destruct (find _ others) as [[[n k] news]|]; reflexivity.
+Qed.
+
+(* nothing shared: the array is returned as it is *)
+Corollary interp_like_disjoint others left right a :
+  shared_axes others (map aname (axes a)) = [] -> interp_like others left right a = Ok a.
+Proof. intros H. rewrite interp_like_successive, H. reflexivity. Qed.
